@@ -109,7 +109,7 @@ class _Worker:
 
 class Pool:
     def __init__(self, n: int | None = None, env: dict[str, str] | None = None,
-                 recycle_after: int = 400) -> None:
+                 recycle_after: int = 150) -> None:
         self.n = n or common.NCPU
         self.env = env or common.base_env()
         self.workers = [_Worker(self.env, i, recycle_after) for i in range(self.n)]
